@@ -32,6 +32,17 @@ int pick = 1;
 #else
 int pick = 2;
 #endif
+#define HAVE_A 1
+#if defined(HAVE_A) /* first half */ \\
+    && defined(HAVE_B) /* second half */
+int sel = 1; /* both */
+#elif defined(HAVE_A) // only a
+int sel = 2; // one
+#else /* none */
+int sel = 3;
+#endif /* HAVE */
+#define ADD3(x) ((x) + /* inside a macro */ \\
+                 3) /* behind a macro */
 int f1(int n, struct pt *s)
 {
     int x = n;;
@@ -56,7 +67,9 @@ int f1(int n, struct pt *s)
     x = x << 2 >> 1; x <<= 1; x >>= 1;
     x = (int) y + (int) sizeof (int) + (int) sizeof x;
     x = n ? -x : +x;
-    x = SQ(x) + MAX(x, n) + TWO;
+    x = SQ(x) + MAX(x, n) + TWO; /* trailing */
+    x = ADD3(x) /* mid */ + sel; // tail
+    /* own line */ x++;
     x = tbl[x % 3] + k [ 1 ];
     x = g(x, -1) + g ( n , x );
     lbl: x++;
@@ -345,7 +358,13 @@ def run(ctx):
                      "mod_full_paren_if_bool=true\nmod_enum_last_comma=remove\nmod_int_short=add\nmod_unsigned_int=remove\nmod_sort_include=true\n"),
             ("mods2", "mod_paren_on_return=remove\nmod_infinite_loop=2\nmod_enum_last_comma=add\nmod_case_brace=remove\nmod_move_case_break=true\n"
                       "mod_long_int=remove\nmod_full_paren_return_bool=true\nmod_full_paren_assign_bool=true\n")]
-    singles = single_option_configs(unc, ctx.rng, 260 if quick else None)
+    singles = single_option_configs(unc, ctx.rng, None)
+    if quick:
+        # the options that rewrite tokens or comments are all kept, the rest is a seeded slice
+        risky = [c for c in singles if c[0].startswith(("mod_", "cmt_", "pp_", "nl_remove", "code_width", "string_"))]
+        rest = [c for c in singles if c not in risky]
+        ctx.rng.shuffle(rest)
+        singles = risky + rest[:160]
     randoms = [("rand%d" % k, cfggen.random_any_config(ctx.rng, unc)) for k in range(40 if quick else 600)]
     jobs = []
     nth = {"expr": 0, "tree": 0}
